@@ -482,6 +482,26 @@ def generate():
                     vs = [("A", "tuple", ["#[educe(Default)]"] if t == "Default" else [], plain_fields("tuple", 1)), ("C", "named", [], plain_fields("named", 1))]
                     vs.insert(vpos, ("B", shape, ["#[educe(%s)]" % va], plain_fields(shape, 1 if shape != "unit" else 0)))
                     yield ("offence-at-variant", ANY, item("enum", "E", ["#[educe(%s)]" % educed], vs))
+    # ---- the same at the only variant of a single-variant enum (several handlers take a path of their own there)
+    for t in ["Debug", "Clone", "Copy", "PartialEq", "Eq", "PartialOrd", "Ord", "Hash", "Default", "Deref", "DerefMut", "Into"]:
+        educed = {"Copy": "Clone, Copy", "Eq": "PartialEq, Eq", "DerefMut": "Deref, DerefMut", "Into": "Into(u8)"}.get(t, t)
+        one = t in ("Deref", "DerefMut", "Into")
+        other = "Hash" if t != "Hash" else "Debug"
+        for shape in ("unit", "tuple", "named"):
+            if one and shape == "unit":
+                continue
+            forms = ["Zzz", other, "%s(zzz)" % t, "%s(bound(*))" % t, "%s(bound = false)" % t, "%s(zzz = 1)" % t, "%s, %s" % (t, t)]
+            if t == "Default":
+                forms += ["Default(new)", "Default(expression = E::B)", "Default(expr = 1)", "Default = 1", "Default(new, bound(*))"]
+            if t not in ("Default",):
+                forms += ["%s" % t.split("(")[0]]          # the bare trait at a variant (only Default accepts a marker there)
+            for va in forms:
+                if t == "Into" and va.startswith("Into"):
+                    continue
+                if t == "Debug" and va in ("Debug",):
+                    continue
+                vs = [("B", shape, ["#[educe(%s)]" % va], plain_fields(shape, 1 if shape != "unit" else 0))]
+                yield ("offence-at-sole-variant", ANY, item("enum", "E", ["#[educe(%s)]" % educed], vs))
     # ---- offences at a union field, for every trait a union supports
     for educed in ["Debug(unsafe)", "PartialEq(unsafe)", "Hash(unsafe)", "Clone", "Clone, Copy", "Copy", "PartialEq(unsafe), Eq", "Eq", "Default"]:
         names = [x.strip().split("(")[0] for x in educed.split(",")]
